@@ -129,7 +129,7 @@ func init() {
 	models[cs+"UnsortedList"] = list(false)
 	mm := func(ex *Exec, ms *modSet) {
 		c, s := ex.sliceComp(intT())
-		ms.add(c, s)
+		ms.addFresh(c, s)
 	}
 	modelMods[cs+"List"] = mm
 	modelMods[cs+"UnsortedList"] = mm
